@@ -392,16 +392,21 @@ class MHLHistory:
 
         # TODO: validate new hash entries
         for media_hash in hash_list.media_hashes:
-            for hash_entry in media_hash.hash_entries:
-                if hash_entry.action == "new":
-                    # TODO: do need to use the original hash here or can we also use another hash
-                    original_hash_entry = self.find_original_hash_entry_for_path(media_hash.path)
-                    required_hash_entry = media_hash.find_hash_entry_for_format(original_hash_entry.hash_format)
-                    if required_hash_entry is None:
-                        raise AssertionError("no hash entry found for new hash", hash_entry)
+            new_hash_entries = [hash_entry for hash_entry in media_hash.hash_entries if hash_entry.action == "new"]
+            if len(new_hash_entries) == 0:
+                continue
+            # a hash in a new format is vouched for by any already recorded format that was checked in the same run,
+            # it does not have to be the format of the original hash
+            required_hash_entries = [
+                hash_entry for hash_entry in media_hash.hash_entries if hash_entry.action in ("verified", "failed")
+            ]
+            for hash_entry in new_hash_entries:
+                if len(required_hash_entries) == 0:
+                    raise AssertionError("no hash entry found for new hash", hash_entry)
+                for required_hash_entry in required_hash_entries:
                     if required_hash_entry.action != "verified":
                         raise AssertionError("hash entry for new hash not verified", hash_entry, required_hash_entry)
-                    hash_entry.action = "verified"
+                hash_entry.action = "verified"
         return True
 
     # accessors
